@@ -59,7 +59,9 @@ def r03_1(run):
         params = [p for p in fi.params()[1:] if not p.startswith("*") and p not in tensors]
         # tensor operands reach the kernel as <t>.data in order
         for k in kcalls:
-            lead = [norm(a) for a in k.args[: len(v.params)]] if v else []
+            from .util import projection_aliases, sem
+            al = projection_aliases(fi.node)
+            lead = [sem(a, al) for a in k.args[: len(v.params)]] if v else []
             ok = v is not None and lead == [f"{t}.data" for t in v.params]
             run.ob("R03.1", loc(fi, k), fi.short, f"kernel receives the operands' arrays in order {lead}", ok,
                    "x.data of each recorded variable, positionally" if ok else "operands crossed / not the tensors' arrays")
